@@ -468,8 +468,12 @@ def run(tier, replay=None):
         if rd["violated"] != "P_C14_WriterAwake":
             raise vlib.ToolError("slip %s is not refuted by P_C14_WriterAwake (TLC: %s)" % (d, rd["violated"]))
         vlib.log("slip %s: TLC counterexample to %s as expected" % (d, rd["violated"]))
+        if not thorough and d != WAKE_SLIPS[0]:
+            continue
+        # ... and breaks the liveness clause (quick tier: the first slip only, on the smallest constants that reach a negative window)
         rl = vlib.tlc("MC_H2Flow", mc_cfg(wd, "mc_slip_live_%s.cfg" % d, checks=LIVE, spec="FairSpec", ids=(1,), bodies=(2,), ups=(0,),
-                                          sv="SV_Win", maxwin=2, conninit=1, grants=(1, 2), recvinit=1, recvconn=2, dev=(d,), maxset=2),
+                                          sv="SV_Win", maxwin=2, conninit=1 if thorough else 2, grants=(1, 2) if thorough else (2,), recvinit=1,
+                                          recvconn=2, dev=(d,), maxset=2),
                       PID, workers=workers, timeout=600)
         rep.add_tlc(rl)
         if rl["violated"] != "P_C14_BodiesComplete":
